@@ -542,4 +542,115 @@ def emitProg (p : Prog) : Except AsmError (List Insn) :=
   | .ok (_, g) => .ok g.code
   | .error e => .error e
 
+/-! ## defect classes of the unchanged generator (decidable predicates on programs)
+
+Each is refuted on a witness and excluded by hypothesis in `Ebv.C01`; the harness evaluates the same predicates on
+the real object tree and compares (part of the correspondence). -/
+
+/-- the width flag `calculate` yields when asked for width `L` -/
+def retLong (L : Bool) : Expr → Bool
+  | .const v => !(decide (-2147483648 ≤ v) && decide (v < 4294967296))
+  | .reg _ lg _ => lg
+  | .bin _ _ _ _ _ => L
+  | .neg a => retLong L a
+  | .abs a => retLong L a
+  | .mem f _ => f.isLong
+
+/-- a register, possibly under unary operators: an unforced `calculate` hands out the register itself -/
+def regChain : Expr → Bool
+  | .reg _ _ _ => true
+  | .neg a => regChain a
+  | .abs a => regChain a
+  | _ => false
+
+def longRegChain : Expr → Bool
+  | .reg _ lg _ => lg
+  | .neg a => longRegChain a
+  | .abs a => longRegChain a
+  | _ => false
+
+/-- *unary-in-place*: a unary operator applied to a register that is not forced into a destination negates the
+source register itself -/
+def unaryInPlace : Expr → Bool → Bool
+  | .const _, _ => false
+  | .reg _ _ _, _ => false
+  | .bin _ l r _ _, _ => unaryInPlace l true || (r.asSmallConst.isNone && unaryInPlace r false)
+  | .neg a, f => (!f && regChain a) || unaryInPlace a f
+  | .abs a, f => (!f && regChain a) || unaryInPlace a f
+  | .mem _ a, _ => a.asSum.isNone && unaryInPlace a false
+
+/-- *unary-32-in-64*: unary minus in a 64-bit computation on an operand that reports 32 bits -/
+def neg32in64 : Expr → Bool → Bool
+  | .const _, _ => false
+  | .reg _ _ _, _ => false
+  | .bin _ l r _ _, L => neg32in64 l L || (r.asSmallConst.isNone && neg32in64 r L)
+  | .neg a, L => (L && !retLong L a) || neg32in64 a L
+  | .abs a, L => neg32in64 a L
+  | .mem _ a, _ => a.asSum.isNone && neg32in64 a true
+
+/-- where a node is forced to put its result -/
+inductive DstCtx where
+  | any | temp | reg (n : Nat)
+deriving DecidableEq, Repr
+
+def DstCtx.forLeft (d : DstCtx) (r : Expr) : DstCtx :=
+  match d with
+  | .any => .temp
+  | .temp => .temp
+  | .reg n => if r.contains n then .temp else .reg n
+
+/-- *narrow-reg-in-64*: a 32-bit register view inside a 64-bit computation, except an unsigned one that is moved
+(32-bit move, zero-extending) into a different register -/
+def narrowIn64 : Expr → Bool → Bool → DstCtx → Bool
+  | .const _, _, _, _ => false
+  | .reg no lg sg, L, forced, dst => L && !lg && (sg || !(forced && dst != .reg no))
+  | .bin _ l r _ _, L, _, dst =>
+    narrowIn64 l L true (dst.forLeft r) || (r.asSmallConst.isNone && narrowIn64 r L false .any)
+  | .neg a, L, f, d => narrowIn64 a L f d
+  | .abs a, L, f, d => narrowIn64 a L f d
+  | .mem _ a, _, _, _ => a.asSum.isNone && narrowIn64 a true false .any
+
+/-- *abs-32*: `abs` in a 32-bit computation tests the sign with a 64-bit comparison of a zero-extended value -/
+def abs32 : Expr → Bool → Bool
+  | .const _, _ => false
+  | .reg _ _ _, _ => false
+  | .bin _ l r _ _, L => abs32 l L || (r.asSmallConst.isNone && abs32 r L)
+  | .neg a, L => abs32 a L
+  | .abs a, L => (!L && !longRegChain a) || abs32 a L
+  | .mem _ a, _ => a.asSum.isNone && abs32 a true
+
+/-- *sum-minus* (surface level): `Sum - expression` falls back to `__add__` -/
+def sumMinus (env : List VarLoc) : SExpr → Bool
+  | .c _ => false
+  | .reg _ _ => false
+  | .var _ => false
+  | .bin op a b =>
+    sumMinus env a || sumMinus env b ||
+      (op == .sub && (match elabE env a, elabE env b with
+        | .ok (.ex x), .ok (.ex _) => isSumObj x
+        | _, _ => false))
+  | .neg a => sumMinus env a
+  | .abs a => sumMinus env a
+  | .m _ a => sumMinus env a
+
+/-- the width a statement asks for and whether/where its value is forced -/
+def Dest.long (env : List VarLoc) : Dest → Bool
+  | .reg view _ => view.long
+  | .var name => match lookupVar env name with | some l => l.fmt.isLong | none => false
+
+def Dest.ctx : Dest → Bool × DstCtx
+  | .reg _ no => (true, .reg no)
+  | .var _ => (false, .any)
+
+/-- names of the program-level classes a statement is in -/
+def stmtClasses (env : List VarLoc) : Stmt → List String
+  | .set d e =>
+    let L := d.long env
+    let (forced, dc) := d.ctx
+    let t : List (String × Bool) := match elabE env e with
+      | .ok (.ex x) => [("abs-32", abs32 x L), ("narrow-reg-in-64", narrowIn64 x L forced dc),
+                        ("unary-32-in-64", neg32in64 x L), ("unary-in-place", unaryInPlace x forced)]
+      | _ => []
+    ((("sum-minus", sumMinus env e) :: t).filter (·.2)).map (·.1)
+
 end Ebv.Gen
